@@ -25,6 +25,9 @@ for a in args:
         jobs.append(tuple(a.split(':')))
 # lanes are shared by every invocation on this machine: each is claimed with a lock file for the whole run
 import fcntl, time
+# a "caught" only means something when the check passes on the unchanged tree: every property that is used gets a
+# baseline run on HEAD first (same lanes, same private copy)
+jobs = [('HEAD', pid) for pid in sorted(set(p for _, p in jobs))] + jobs
 lanes = queue.Queue()
 _held = []
 os.makedirs('/var/tmp/lpverif', exist_ok=True)
@@ -56,13 +59,25 @@ def run(job):
 with ThreadPoolExecutor(max_workers=nj) as ex:
     results = list(ex.map(run, jobs))
 by = {}
+head_ok = {}
 for (k, pid), line in results:
+    if k == 'HEAD':
+        head_ok[pid] = (' OK ' in line or ':: OK' in line)
+        print(line)
+for (k, pid), line in results:
+    if k == 'HEAD':
+        continue
     print(line)
+    if not head_ok.get(pid, False):
+        by.setdefault(k, []).append((pid, 'invalid: the check does not pass on the unchanged tree'))
+        continue
     verdict = 'patch does not apply to the current HEAD' if 'PATCH-DOES-NOT-APPLY' in line else \
         ('caught (no-failing-input-found)' if 'no-failing-input-found' in line else ('caught' if 'VIOLATION' in line else ('missed' if ' OK ' in line or ':: OK' in line else 'error: ' + line[-120:])))
     by.setdefault(k, []).append((pid, verdict))
 for k, lst in by.items():
     mp = os.path.join(HERE, 'seeded', k, 'meta.json')
+    if not os.path.exists(mp):
+        continue
     m = json.load(open(mp))
     prev = m.get('checks_run') or {}
     done = set(p for p, v in lst)
